@@ -59,38 +59,7 @@ def run(ctx):
     ctx.floor('R1.1', 'converted_types.simple entries', len(simple), 8)
     ctx.floor('R1.1', 'converted_types.complex entries', len(complex_), 12)
     wloc = 'fastparquet/writer.py:32'
-    # R1.1
-    for d in QUANTIFIER_DTYPES:
-        ent = typemap.get(d)
-        ctx.ob('R1.1', 'writer.typemap:has-entry:%s' % d, ent is not None, '', wloc)
-        if ent is None:
-            continue
-        pt, ct, width = ent
-        back = complex_.get(ct) if ct is not None else simple.get(pt)
-        bname = _np_name(back)
-        twin = {'boolean': 'bool'}.get(d, d.lower())
-        ctx.ob('R1.1', 'tables:reader-dtype-of-writer-dtype:%s' % d, bname == twin,
-               '%s is written as (%s, %s); the reader maps that to %s (want %s)' % (d, pt, ct, bname, twin), wloc)
-        if d[0].isupper() or d == 'boolean':
-            ext = pnull.get(d)
-            via = nullable.get(Sym('dtype:' + twin))
-            ctx.ob('R1.1', 'tables:nullable-twin-maps-back:%s' % d, ext is not None and ext == via,
-                   'pandas_nullable[%r] = %r, nullable[dtype(%s)] = %r' % (d, ext, twin, via), 'fastparquet/converted_types.py:1')
-            npdt = pdopt.get(ext)
-            ctx.ob('R1.1', 'tables:writer-strips-nullable-to-its-numpy-twin:%s' % d,
-                   _np_name(npdt) == twin, 'pdoptional_to_numpy_typemap[%r] = %r' % (ext, npdt), wloc)
-        if pt in revmap or pt in decode_tm:
-            a, b = _np_name(revmap.get(pt)), _np_name(decode_tm.get(pt))
-            ctx.ob('R1.1', 'tables:plain-width-agrees-writer-reader:%s' % d, a == b and a is not None,
-                   'writer converts to %s, reader decodes PLAIN as %s' % (a, b), wloc)
-            ctx.ob('R1.1', 'tables:plain-width-holds-the-dtype:%s' % d, (_bits(a) or 0) >= (_bits(twin) or 0),
-                   '%s stored in %s' % (d, a), wloc)
-        ctx.ob('R1.1', 'writer.typemap:declared-bit-width:%s' % d, width == (_bits(twin) or width),
-               'width %s' % width, wloc)
-    for d in sorted(set(typemap) - set(QUANTIFIER_DTYPES)):
-        pt, ct, width = typemap[d]
-        ctx.note('R1.1 note: %s (outside the property\'s dtype list) is written as %s and read back as %s' % (
-            d, pt, _np_name(simple.get(pt))))
+    r11(ctx)
 
     # R1.2
     wr = repo['writer']
@@ -223,6 +192,8 @@ def run(ctx):
     # null tally is a necessary condition of the round trip (shared with C04)
     from . import c04
     c04.r41(ctx, repo['writer'])
+    from . import callsigs as _cs
+    _cs.general_rules(ctx, 'R1', ['writer.write', 'writer.write_simple', 'writer.write_multi', 'writer.make_row_group', 'writer.make_part_file', 'writer.partition_on_columns', 'writer.make_metadata', 'writer.write_column', 'core', 'api.ParquetFile.to_pandas', 'api.ParquetFile.read_row_group_file'])
 
 
 def r16(ctx, core):
@@ -262,3 +233,50 @@ def _conjuncts(e):
             out.extend(_conjuncts(v))
         return out
     return [e]
+
+
+def r11(ctx):
+    """R1.1 table composition (also used by C02: the schema annotation must describe the stored values)"""
+    repo = ctx.repo
+    typemap = module_table(repo, 'writer', 'typemap')
+    simple = module_table(repo, 'converted_types', 'simple')
+    complex_ = module_table(repo, 'converted_types', 'complex')
+    nullable = module_table(repo, 'converted_types', 'nullable')
+    pnull = module_table(repo, 'converted_types', 'pandas_nullable')
+    decode_tm = module_table(repo, 'encoding', 'DECODE_TYPEMAP')
+    revmap = module_table(repo, 'writer', 'revmap')
+    pdopt = module_table(repo, 'writer', 'pdoptional_to_numpy_typemap')
+    wloc = 'fastparquet/writer.py:32'
+    # R1.1
+    for d in QUANTIFIER_DTYPES:
+        ent = typemap.get(d)
+        ctx.ob('R1.1', 'writer.typemap:has-entry:%s' % d, ent is not None, '', wloc)
+        if ent is None:
+            continue
+        pt, ct, width = ent
+        back = complex_.get(ct) if ct is not None else simple.get(pt)
+        bname = _np_name(back)
+        twin = {'boolean': 'bool'}.get(d, d.lower())
+        ctx.ob('R1.1', 'tables:reader-dtype-of-writer-dtype:%s' % d, bname == twin,
+               '%s is written as (%s, %s); the reader maps that to %s (want %s)' % (d, pt, ct, bname, twin), wloc)
+        if d[0].isupper() or d == 'boolean':
+            ext = pnull.get(d)
+            via = nullable.get(Sym('dtype:' + twin))
+            ctx.ob('R1.1', 'tables:nullable-twin-maps-back:%s' % d, ext is not None and ext == via,
+                   'pandas_nullable[%r] = %r, nullable[dtype(%s)] = %r' % (d, ext, twin, via), 'fastparquet/converted_types.py:1')
+            npdt = pdopt.get(ext)
+            ctx.ob('R1.1', 'tables:writer-strips-nullable-to-its-numpy-twin:%s' % d,
+                   _np_name(npdt) == twin, 'pdoptional_to_numpy_typemap[%r] = %r' % (ext, npdt), wloc)
+        if pt in revmap or pt in decode_tm:
+            a, b = _np_name(revmap.get(pt)), _np_name(decode_tm.get(pt))
+            ctx.ob('R1.1', 'tables:plain-width-agrees-writer-reader:%s' % d, a == b and a is not None,
+                   'writer converts to %s, reader decodes PLAIN as %s' % (a, b), wloc)
+            ctx.ob('R1.1', 'tables:plain-width-holds-the-dtype:%s' % d, (_bits(a) or 0) >= (_bits(twin) or 0),
+                   '%s stored in %s' % (d, a), wloc)
+        ctx.ob('R1.1', 'writer.typemap:declared-bit-width:%s' % d, width == (_bits(twin) or width),
+               'width %s' % width, wloc)
+    for d in sorted(set(typemap) - set(QUANTIFIER_DTYPES)):
+        pt, ct, width = typemap[d]
+        ctx.note('R1.1 note: %s (outside the property\'s dtype list) is written as %s and read back as %s' % (
+            d, pt, _np_name(simple.get(pt))))
+
